@@ -3,6 +3,7 @@
 package peering
 
 import (
+	"errors"
 	"net"
 	"net/netip"
 
@@ -23,9 +24,24 @@ func VerifConsts() map[string]uint64 {
 }
 
 // VerifSetupLink runs the real link setup (handshake, finalize, switch label, AddLink,
-// workers) on the given connection and returns the link.
+// workers) on the given connection and returns the link: an outgoing connection through
+// handleSetup as the connect path does, an incoming one through setupWorker as the listeners do.
+// For an incoming connection whose setup did not end with a registered link, the link object is
+// returned together with the error, so that its fate (it must be closing) can be observed.
 func (p *Peering) VerifSetupLink(conn net.Conn, outgoing bool) (Link, error) {
 	link := newLinkBase(conn, nil, outgoing, p)
+	if !outgoing {
+		workerErr := p.mgr.Do("verif link setup", func(w *mgr.WorkerCtx) error {
+			return link.setupWorker(w)
+		})
+		if workerErr != nil {
+			return nil, workerErr
+		}
+		if !link.peer.IsValid() || p.GetLink(link.peer) != Link(link) {
+			return link, errors.New("incoming link setup did not register the link")
+		}
+		return link, nil
+	}
 	var (
 		l        *LinkBase
 		setupErr error
